@@ -7,7 +7,6 @@ package limbox
 import (
 	"context"
 	"runtime"
-	"sync"
 	"time"
 
 	metav1 "k8s.io/apimachinery/pkg/apis/meta/v1"
@@ -22,75 +21,59 @@ import (
 	rlutil "github.com/kubewharf/kubegateway/pkg/ratelimiter/util"
 )
 
-// Elector is a scripted elector.LeaderElector.
+// Elector drives the REAL leader elector of the limiter server (built through the verif hook, without lease
+// configuration): leadership events are delivered the way client-go's leader election delivers OnStartedLeading,
+// OnStoppedLeading and OnNewLeader.
 type Elector struct {
-	mu        sync.RWMutex
-	Identity  string
-	leaders   map[int]string
-	callbacks elector.LeaderCallbacks
+	Identity string
+	real     elector.LeaderElector
+	// AfterStop, if set, runs right after the limiter's OnStoppedLeading callback returned, still inside the
+	// elector's own handling of the loss (e.g. a tick of the periodic leader check landing there).
+	AfterStop func(shard int)
+}
+
+func newElector(identity string, shards int) *Elector {
+	return &Elector{Identity: identity, real: elector.VerifNewLeaderElector(identity, shards)}
 }
 
 // IsLeader implements elector.LeaderElector.
-func (e *Elector) IsLeader(shard int) bool {
-	e.mu.RLock()
-	defer e.mu.RUnlock()
-	return e.leaders[shard] == e.Identity
-}
+func (e *Elector) IsLeader(shard int) bool { return e.real.IsLeader(shard) }
 
 // GetLeaders implements elector.LeaderElector.
-func (e *Elector) GetLeaders() map[int]proxyv1alpha1.EndpointInfo {
-	e.mu.RLock()
-	defer e.mu.RUnlock()
-	out := map[int]proxyv1alpha1.EndpointInfo{}
-	for s, l := range e.leaders {
-		out[s] = proxyv1alpha1.EndpointInfo{Leader: l, ShardID: int32(s)}
-	}
-	return out
-}
+func (e *Elector) GetLeaders() map[int]proxyv1alpha1.EndpointInfo { return e.real.GetLeaders() }
 
 // SetCallbacks implements elector.LeaderElector.
-func (e *Elector) SetCallbacks(c elector.LeaderCallbacks) { e.callbacks = c }
-
-// Gain makes this server leader of the shard the way the real elector does: record, then callback.
-func (e *Elector) Gain(shard int) {
-	e.mu.Lock()
-	e.leaders[shard] = e.Identity
-	e.mu.Unlock()
-	if e.callbacks.OnStartedLeading != nil {
-		e.callbacks.OnStartedLeading(shard)
+func (e *Elector) SetCallbacks(c elector.LeaderCallbacks) {
+	stop := c.OnStoppedLeading
+	c.OnStoppedLeading = func(shard int) {
+		if stop != nil {
+			stop(shard)
+		}
+		if f := e.AfterStop; f != nil {
+			f(shard)
+		}
 	}
+	e.real.SetCallbacks(c)
 }
 
-// Lose drops leadership of the shard (record removed, then callback), like the real elector.
-func (e *Elector) Lose(shard int) {
-	e.mu.Lock()
-	if e.leaders[shard] == e.Identity {
-		delete(e.leaders, shard)
-	}
-	e.mu.Unlock()
-	if e.callbacks.OnStoppedLeading != nil {
-		e.callbacks.OnStoppedLeading(shard)
-	}
-}
+// Gain delivers OnStartedLeading for the shard.
+func (e *Elector) Gain(shard int) { elector.VerifStartLeading(e.real, shard) }
 
-// SetLeaderSilently records a leader (this server or a foreign one) without any callback; the
-// server learns about it in leaderCheck, as with OnNewLeader of the real elector.
+// Lose delivers OnStoppedLeading for the shard.
+func (e *Elector) Lose(shard int) { elector.VerifStopLeading(e.real, shard) }
+
+// SetLeaderSilently records a leader (this server or a foreign one) without any callback: OnNewLeader of the real
+// elector; the server learns about it in leaderCheck. identity "" = the table entry vanishes.
 func (e *Elector) SetLeaderSilently(shard int, identity string) {
-	e.mu.Lock()
 	if identity == "" {
-		delete(e.leaders, shard)
-	} else {
-		e.leaders[shard] = identity
+		elector.VerifDropLeaderEntry(e.real, shard)
+		return
 	}
-	e.mu.Unlock()
+	elector.VerifSetLeader(e.real, shard, identity)
 }
 
 // Leader returns the recorded leader of a shard.
-func (e *Elector) Leader(shard int) string {
-	e.mu.RLock()
-	defer e.mu.RUnlock()
-	return e.leaders[shard]
-}
+func (e *Elector) Leader(shard int) string { return e.real.GetLeaders()[shard].Leader }
 
 type realElector struct{ *Elector }
 
@@ -124,7 +107,7 @@ type Box struct {
 
 // New builds a limiter box. storeKind is "local" or "k8s" (write-through, sync period 0).
 func New(storeKind string, shards int, identity string) *Box {
-	el := &Elector{Identity: identity, leaders: map[int]string{}}
+	el := newElector(identity, shards)
 	ctl := &Controller{Indexer: cache.NewIndexer(cache.MetaNamespaceKeyFunc, cache.Indexers{})}
 	client := gatewayfake.NewSimpleClientset()
 	opts := options.RateLimitOptions{ShardingCount: shards, LimitStore: storeKind, Identity: identity, K8sStoreSyncPeriod: 0}
